@@ -240,6 +240,13 @@ theorem getslice_is_list_slice {f : GroRd} {sg : SG} {c : Cursor} {gs : List Res
   obtain ⟨_, _, _, _, _, _, _, _, _, hL, _⟩ := built_groups h
   exact getSlice_spec f sg gs hL c' a b s
 
+/-- what every access theorem above rests on, for reuse by C11: the offset generator of a built view
+    designates, in order and inside the file, exactly the residues `gs` -/
+theorem built_loaded {f : GroRd} {sg : SG} {c : Cursor} {gs : List Residue} (h : Built f sg c gs) :
+    Loaded f sg gs := by
+  obtain ⟨_, _, _, _, _, _, _, _, _, hL, _⟩ := built_groups h
+  exact hL
+
 /-- **counts agree.**  `len(view)` is the number of runs and the runs contain `natoms` atoms in total
     (box and title are handed through from the `GroFile` unchanged: `f.box`, `f.title`). -/
 theorem counts_agree {f : GroRd} {sg : SG} {c : Cursor} {gs : List Residue} (h : Built f sg c gs) :
